@@ -5,6 +5,7 @@ import (
 	"crypto/sha256"
 	"encoding/hex"
 	"fmt"
+	"regexp"
 	"sort"
 
 	"go.sia.tech/core/consensus"
@@ -86,12 +87,18 @@ func (w *World) preValidate(n *Node, s consensus.State, b types.Block, bs consen
 	return snap
 }
 
+// errStr is the verdict as compared between calls: nil or the error's text
+// with identifiers blanked. Which of several offending parents an error names
+// is not part of the verdict (validateSignatures reports the first one a map
+// iteration meets).
 func errStr(err error) string {
 	if err == nil {
 		return "<nil>"
 	}
-	return err.Error()
+	return reHexID.ReplaceAllString(err.Error(), "#")
 }
+
+var reHexID = regexp.MustCompile(`[0-9a-f]{8,}`)
 
 // postValidate: the first call is done; compare with repeated calls, with a
 // decoded copy, with per-transaction validation, and check the inputs.
